@@ -2,6 +2,7 @@ package vuego
 
 import (
 	"errors"
+	stdhtml "html"
 	"strconv"
 	"strings"
 )
@@ -28,12 +29,15 @@ var zzC13Operands = []zzOperand{
 	{src: "2", num: 2, isNum: true},
 	{src: "s", str: "x"},
 	{src: "'x'", str: "x"},
+	// white space inside a string is part of the string
+	{src: "w", str: "p  q"},
+	{src: "'p  q'", str: "p  q"},
 }
 
 var zzC13Ops = []string{"==", "!=", "<", ">", "<=", ">=", "+", "-", "*", "&&", "||", "===", "!=="}
 
 func zzC13Env() map[string]any {
-	return map[string]any{"a": 3, "b": 4, "s": "x", "t": true, "f": false, "m": map[string]any{"k": 5}, "xs": []int{9, 8}}
+	return map[string]any{"a": 3, "b": 4, "s": "x", "w": "p  q", "t": true, "f": false, "m": map[string]any{"k": 5}, "xs": []int{9, 8}}
 }
 
 // VerifC13_Positions: documented expressions (comparison, logical, arithmetic,
@@ -54,8 +58,8 @@ func VerifC13_Positions() {
 		r := zzC13Operands[zzChoice("r", len(zzC13Operands))]
 		op := zzC13Ops[zzChoice("op", len(zzC13Ops))]
 		expr = l.src + sp + op + sp + r.src
-		lLit := l.src == "2" || l.src == "'x'"
-		rLit := r.src == "2" || r.src == "'x'"
+		lLit := l.src == "2" || l.src[0] == '\''
+		rLit := r.src == "2" || r.src[0] == '\''
 		if lLit && rLit && l.isNum != r.isNum {
 			return // comparing two literals of different kinds is rejected by the compiler; not a documented form
 		}
@@ -116,7 +120,7 @@ func VerifC13_Positions() {
 			want = "no"
 		}
 	case 3:
-		o := zzC13Operands[zzChoice("l", 6)]
+		o := zzC13Operands[[]int{0, 1, 2, 3, 4, 5, 7}[zzChoice("l", 7)]]
 		expr = o.src
 		if o.isNum {
 			want = strconv.Itoa(o.num)
@@ -220,7 +224,7 @@ func VerifC13_Pipes() {
 			return len(vals)
 		},
 	}
-	chain := zzChoice("chain", 15)
+	chain := zzChoice("chain", 19)
 	var expr, want, wantLog string
 	switch chain {
 	case 0:
@@ -253,8 +257,22 @@ func VerifC13_Pipes() {
 		expr, want, wantLog = "tally('n', 4, 5)", "n:9", "tally"
 	case 14:
 		expr, want, wantLog = "s | count(1, 'two')", "3", "count"
+	case 15:
+		expr, want, wantLog = "s | wrap('  ')", "  x  ", "wrap(x,  )" // blanks inside a quoted argument reach the function
+	case 16: // the other quote character inside a literal, followed by another stage
+		expr, want, wantLog = `s | wrap("i's") | upper`, "I'SXI'S", "wrap(x,i's)"
+	case 17:
+		expr, want, wantLog = `s | wrap('6" n') | upper`, `6" NX6" N`, `wrap(x,6" n)`
+	case 18:
+		expr, want, wantLog = `s | wrap("a,b") | wrap('(')`, "(a,bxa,b(", "wrap(x,a,b) wrap(a,bxa,b,()"
 	}
 	pos := zzChoice("pos", 2)
+	if chain >= 16 && pos == 1 {
+		return // both quote characters cannot be written inside one attribute value
+	}
+	if chain >= 16 {
+		want = stdhtml.EscapeString(want) // quotes are written as character references
+	}
 	body := `<p>[{{ ` + expr + ` }}]</p>`
 	if pos == 1 {
 		body = `<p :title="` + strings.ReplaceAll(expr, `"`, `'`) + `">t</p>`
